@@ -225,17 +225,19 @@ def element_is_conditional(text: str) -> bool:
     return False
 
 
-def delivered_filename(ctx: Ctx) -> Dict[str, Optional[str]]:
-    "what the three runner.sh scripts deliver into an output DIRECTORY (container model)"
+def delivered_filename(ctx: Ctx, explicit: Optional[str] = None) -> Dict[str, Optional[str]]:
+    "what the three runner.sh scripts deliver into an output DIRECTORY (container model); explicit: file name given to ResultTTree"
     out: Dict[str, Optional[str]] = {}
     if not ct.unshare_available():
         return out
     q = {"atlas": "ds.Select(lambda e: e.EventInfo('EventInfo').runNumber())", "cms_aod": "ds.Select(lambda e: e.Muons('A').Count())", "cms_miniaod": "ds.Select(lambda e: e.Muons('A').Count())"}
-    trs = run_batch([{"args": {"backend": b, "query": q[b], "out": str(ctx.scratch / f"rpkg_{b}")}} for b in q], ctx.scratch)
+    if explicit is not None:
+        q = {b: f"ResultTTree({t}, ['n'], 'mytree', {explicit!r})" for b, t in q.items()}
+    trs = run_batch([{"args": {"backend": b, "query": q[b], "out": str(ctx.scratch / f"rpkg_{b}_{abs(hash(explicit)) % 1000}")}} for b in q], ctx.scratch)
     for b, tr in zip(q, trs):
         if tr["status"] != "ok":
             continue
-        c = ct.Container(ctx.scratch / f"rct_{b}", ctx.scratch / f"rpkg_{b}", b, filelist_in_scripts="/data/x.root\n")
+        c = ct.Container(ctx.scratch / f"rct_{b}_{abs(hash(explicit)) % 1000}", ctx.scratch / f"rpkg_{b}_{abs(hash(explicit)) % 1000}", b, filelist_in_scripts="/data/x.root\n")
         res = c.invoke([])
         files = [p for p in res["changed"] if p.startswith("/results/")]
         out[b] = Path(files[0]).name if res["rc"] == 0 and len(files) == 1 else None
@@ -342,14 +344,16 @@ def run(ctx: Ctx) -> int:
         else:
             ctx.seen((backend, "labels", ncol, nlab))
     # the file name in the descriptor is the file runner.sh delivers
-    deliv = delivered_filename(ctx)
-    ctx.extra["delivered_vs_descriptor_filename"] = deliv
-    for b in sch.BACKENDS:
-        if b not in deliv:
-            ctx.notes.append(f"container model unavailable for {b}: descriptor file name not compared")
-            continue
-        ctx.count("evaluations")
-        if deliv[b] != deliv[b + "_descriptor"]:
-            ctx.violation({"backend": b, "delivered": deliv[b], "descriptor": deliv[b + "_descriptor"]},
-                          f"[{b}] runner.sh delivers {deliv[b]!r} but the descriptor names {deliv[b + '_descriptor']!r}")
+    for explicit in (None, "muons.root", "ANALYSIS.root", "my out.root", "data.txt"):
+        deliv = delivered_filename(ctx, explicit)
+        ctx.extra[f"delivered_vs_descriptor_filename[{explicit}]"] = deliv
+        for b in sch.BACKENDS:
+            if b not in deliv:
+                ctx.notes.append(f"container model unavailable for {b}: descriptor file name not compared")
+                continue
+            ctx.count("evaluations")
+            ctx.count("descriptor_filename_vs_delivery_compared")
+            if deliv[b] != deliv[b + "_descriptor"]:
+                ctx.violation({"backend": b, "delivered": deliv[b], "descriptor": deliv[b + "_descriptor"], "explicit_name": explicit},
+                              f"[{b}] runner.sh delivers {deliv[b]!r} but the descriptor names {deliv[b + '_descriptor']!r} (file name given to ResultTTree: {explicit!r})")
     return ctx.finish("exploration", RULE, ASSUME)
